@@ -114,6 +114,9 @@ def make_experiments(d, seed):
     # experiment names that differ only in surrounding white space are different names (different output folders)
     paths["B "] = paths["C"]
     paths["SKIP"] = {"one": [], "two": [], "skew": []}        # an experiment without long-read files (silently dropped)
+    # an experiment that bears the name IsoQuant would give to the third experiment of a run if it had to rename it (<prefix><index>, default
+    # prefix OUT): with a repeated name further down, renaming must not hand out a name that is taken
+    paths["OUT2"] = paths["A"]
     return paths
 
 
@@ -221,7 +224,10 @@ def run(chk, scratch):
             seqs = [(["A", "B", "C"], "one", 1, "yaml"), (["B", "A"], "one", 4, "list"), (["A", "B"], "two", 1, "yaml"),
                     (["A", "A2"], "one", 1, "yaml"), (["A", "B"], ("one", "skew"), 1, "yaml"), (["B", "A"], ("skew", "one"), 2, "list"),
                     (["A", "B"], "two", 2, "yaml-unl:B"), (["B", "B "], "one", 2, "yaml"), (["SKIP", "A", "B"], "one", 1, "yaml-ill:SKIP,A"),
-                    (["A", "A2", "B"], "one", 1, "list-rgtable"), (["A", "B"], "one", 1, "yaml-ill:A,B"), (["C", "A"], "one", 2, "list"), (["A", "C"], "one", 1, "yaml-pacbio"), (["A", "A2", "B"], "one", 1, "yaml-hm"), (["A", "A2"], "two", 2, "yaml")]
+                    (["A", "A2", "B"], "one", 1, "list-rgtable"), (["A", "B"], "one", 1, "yaml-ill:A,B"), (["C", "A"], "one", 2, "list"), (["A", "C"], "one", 1, "yaml-pacbio"), (["A", "A2", "B"], "one", 1, "yaml-hm"), (["A", "A2"], "two", 2, "yaml"),
+                    (["OUT2", "B", "B"], "one", 1, "yaml")]
+        if thorough:
+            seqs += [(["OUT2", "B", "B"], "one", 1, "yaml"), (["OUT2", "C", "C"], "one", 2, "list")]
         # stand-alone runs (per experiment x files x threads x mode)
         # a sequence whose experiments differ in the number of files runs (stand-alone and joint) with an explicit --read_group file_name,
         # which a mixed sequence would otherwise switch on implicitly for all experiments
@@ -292,9 +298,18 @@ def run(chk, scratch):
             if r["rc"] is None:
                 chk.inconclusive.append("watchdog expired: " + desc)
                 continue
+            repeated_ = len(set(names)) < len(names)
+            if r["rc"] != 0 and repeated_ and "Change experiment name" in r["out"]:
+                # a repeated experiment name that cannot be replaced by a free one: the run refuses to start (nothing is overwritten)
+                chk.count("runs_refused_because_of_a_repeated_experiment_name")
+                chk.note()
+                continue
             if r["rc"] != 0:
                 chk.violation("joint-run-failed", "joint run failed (%s): %s" % (desc, pipeline.fail_text(r)), wit)
                 continue
+            if repeated_:
+                # the later copy of a repeated name was renamed; the experiments that keep their names are compared as usual
+                names = [n_ if n_ not in names[:k_] else "SKIP" for k_, n_ in enumerate(names)]
             snaps = [e for e in runner.load_events(ev) if e["k"] == "sample_start"]
             chk.sample({"sequence": names, "threads": t, "carried_state_at_sample_start": [(s["prefix"], s["state"]) for s in snaps]}, limit=3)
             for pos, n in enumerate(names):
@@ -321,7 +336,8 @@ def run(chk, scratch):
                     chk.nontrivial.add((tuple(names), pos, t, nf, mode))
                     if not isinstance(nf, str) and len(paths[n][nf_of(nf, pos)]) > 1 and any(len(paths[m][nf_of(nf, q)]) == 1 for q, m in enumerate(names[:pos])):
                         chk.count("multi_file_experiments_after_a_single_file_one")
-            check_combined(chk, out, [n for n in names if n != "SKIP"], wit)
+            if not repeated_:
+                check_combined(chk, out, [n for n in names if n != "SKIP"], wit)
             shutil.rmtree(out, ignore_errors=True)
         if chk.violations and not getattr(chk, "witness_files", None):
             chk.witness_files = [os.path.join(d, f) for f in os.listdir(d) if f.endswith((".bam", ".bai", ".gtf", ".fa", ".in"))]
